@@ -376,7 +376,46 @@ pub fn check_result(sk: &HllSketch, e: &Expect, ctx: &str) -> Result<(), Fail> {
     Ok(())
 }
 
+/// Once per run: a union at large k (lg_k 19..=21, far beyond the 4..=14 of the generated inputs): two array-mode
+/// inputs of different target types, compared register by register with a single sketch fed both streams; estimate and
+/// bounds must not depend on the target type asked from to_sketch.
+fn big_union_once(seed: u64) -> Result<(), Fail> {
+    for (lg_k, ta, tb) in [(19u8, HllType::Hll6, HllType::Hll4), (20, HllType::Hll8, HllType::Hll6), (21, HllType::Hll4, HllType::Hll8)] {
+        let k = 1u64 << lg_k;
+        let n = k * 6 / 10;
+        let (mut a, mut b, mut all) = (HllSketch::new(lg_k, ta), HllSketch::new(lg_k, tb), HllSketch::new(lg_k, HllType::Hll8));
+        let mut sm = SplitMix(seed ^ lg_k as u64);
+        for i in 0..2 * n {
+            let key = sm.next();
+            if i % 2 == 0 {
+                a.update(key);
+            } else {
+                b.update(key);
+            }
+            all.update(key);
+        }
+        let mut u = HllUnion::new(lg_k);
+        u.update(&a);
+        u.update(&b);
+        let ctx = format!("union of two array-mode inputs at lg_k {lg_k} ({n} items each)");
+        let r8 = u.to_sketch(HllType::Hll8);
+        ensure!(r8.verif_state().registers == all.verif_state().registers, "C03.result.registers", "{ctx}: registers differ from a single sketch fed both streams");
+        let reads = |s: &HllSketch| (s.estimate().to_bits(), s.lower_bound(NumStdDev::Two).to_bits(), s.upper_bound(NumStdDev::Two).to_bits());
+        let (r4, r6) = (u.to_sketch(HllType::Hll4), u.to_sketch(HllType::Hll6));
+        ensure!(reads(&r8) == reads(&r4) && reads(&r8) == reads(&r6), "C03.result.type_dependent", "{ctx}: to_sketch estimates differ by target type: Hll8 {} Hll6 {} Hll4 {}", r8.estimate(), r6.estimate(), r4.estimate());
+        let truth = 2.0 * n as f64;
+        ensure!((r8.estimate() / truth - 1.0).abs() < 0.02, "C03.result.estimate", "{ctx}: estimate {} for {truth} distinct items", r8.estimate());
+        ensure!((u.estimate() - r8.estimate()).abs() <= 1e-9 * truth, "C03.result.union_estimate", "{ctx}: union estimate {} vs result {}", u.estimate(), r8.estimate());
+    }
+    Ok(())
+}
+
 pub fn run_case(c: &Case, info: &mut CaseInfo) -> Result<(), Fail> {
+    static BIG_DONE: std::sync::atomic::AtomicBool = std::sync::atomic::AtomicBool::new(false);
+    if !BIG_DONE.swap(true, std::sync::atomic::Ordering::SeqCst) {
+        big_union_once(c.lg_max_k as u64 + 77)?;
+        info.label("big_union_lg19_21");
+    }
     let mut built = vec![];
     for i in &c.inputs {
         built.push(build_input(i)?);
